@@ -1,6 +1,8 @@
 package main
 
 import (
+	"regexp"
+	"go/token"
 	"encoding/json"
 	"go/types"
 	"flag"
@@ -188,6 +190,7 @@ func cmdCheck(args []string) int {
 		obls = append(obls, vr.Obls...)
 	}
 	obls = append(obls, eng.callersObligations(*prop)...)
+	obls = append(obls, eng.nonBlockingObligations(*prop)...)
 	tGen := time.Since(t0).Seconds() - tLoad
 	tmp, _ := os.MkdirTemp("", "verif-smt-")
 	if !*keep {
@@ -198,6 +201,9 @@ func cmdCheck(args []string) int {
 	srs := solveAll(obls, tmp, timeout, 6)
 	rep := &Report{Prop: *prop, Tier: *tier, Seed: seed, Verif: *verif, Repo: *repo, Eng: eng, Roots: results, Obls: obls, Results: srs,
 		EngineErrs: engineErrs, LoadS: tLoad, GenS: tGen, T0: t0, Verbose: *verbose, Timeout: timeout}
+	if *only == "" {
+		rep.Bounded = runBounded(rep)
+	}
 	return rep.finish()
 }
 
@@ -216,6 +222,50 @@ type Report struct {
 	T0          time.Time
 	Verbose     bool
 	Timeout     int
+	Bounded     []*BoundedResult
+}
+
+// BoundedCheck: a bounded stand-in (contracts/bounded.json) for a clause no contract within reach can express:
+// a test of the real functions over a stated finite space. Reported as bounded, never counted as proved.
+type BoundedCheck struct {
+	Property, Name, Pkg, File, Test, Bound string
+}
+
+type BoundedResult struct {
+	Check      BoundedCheck
+	Cases      int
+	Violations int
+	Output     string
+	Seconds    float64
+	Ran        bool
+}
+
+var boundedCasesRe = regexp.MustCompile(`BOUNDED-CASES (\d+) violations (\d+)`)
+
+func runBounded(r *Report) []*BoundedResult {
+	var checks []BoundedCheck
+	b, err := os.ReadFile(filepath.Join(r.Verif, "contracts", "bounded.json"))
+	if err != nil {
+		return nil
+	}
+	json.Unmarshal(b, &checks)
+	var out []*BoundedResult
+	for _, c := range checks {
+		if c.Property != r.Prop {
+			continue
+		}
+		t0 := time.Now()
+		os.Setenv("VERIF_TIER", r.Tier)
+		o, _ := goReplay(r, c.Pkg, c.File, c.Test, map[string]string{})
+		br := &BoundedResult{Check: c, Output: o, Seconds: time.Since(t0).Seconds()}
+		if m := boundedCasesRe.FindStringSubmatch(o); m != nil {
+			br.Ran = true
+			br.Cases, _ = strconv.Atoi(m[1])
+			br.Violations, _ = strconv.Atoi(m[2])
+		}
+		out = append(out, br)
+	}
+	return out
 }
 
 func loadKnown(verif string) []KnownFinding {
@@ -328,6 +378,44 @@ func (r *Report) finish() int {
 			samples = append(samples, map[string]any{"obligation": sr.Name, "goal": truncate(o.Goal, 600), "guard": truncate(o.Guard, 200)})
 		}
 	}
+	// bounded stand-ins: reported apart, never counted among the obligations
+	var boundedEv []map[string]any
+	for _, br := range r.Bounded {
+		ev := map[string]any{"name": br.Check.Name, "bound": br.Check.Bound, "level": "bounded (a run of the real functions over the stated finite space; not a proof)",
+			"cases": br.Cases, "violations": br.Violations, "seconds": round3(br.Seconds), "test": br.Check.Test}
+		boundedEv = append(boundedEv, ev)
+		if !br.Ran {
+			lines = append(lines, fmt.Sprintf("BROKEN: bounded check %s did not run: %s", br.Check.Name, firstLines(br.Output, 4)))
+			exit = 2
+			continue
+		}
+		if br.Violations > 0 {
+			isKnown := false
+			for _, k := range known {
+				if k.Property == r.Prop && k.Status == "known" && k.Obligation == "bounded:"+br.Check.Name {
+					isKnown = true
+					lines = append(lines, fmt.Sprintf("KNOWN-FINDING: property=%s bounded:%s: %s", r.Prop, br.Check.Name, k.What))
+				}
+			}
+			if isKnown {
+				continue
+			}
+			violations++
+			os.MkdirAll(replayDir, 0755)
+			rp := filepath.Join(replayDir, sanitize("bounded_"+br.Check.Name)+".json")
+			var fails []string
+			for _, l := range strings.Split(br.Output, "\n") {
+				if strings.HasPrefix(l, "BOUNDED-VIOLATION") {
+					fails = append(fails, truncate(l, 1500))
+				}
+			}
+			writeJSON(rp, map[string]any{"property": r.Prop, "obligation": "bounded:" + br.Check.Name, "kind": "bounded", "bound": br.Check.Bound,
+				"cases": br.Cases, "violations": br.Violations, "failing_cases": fails, "replay": map[string]any{"confirmed": true, "driver": br.Check.Test, "summary": "the failing histories were produced by running the real functions"}})
+			lines = append(lines, fmt.Sprintf("bounded check %s: %d of %d cases fail; first: %s", br.Check.Name, br.Violations, br.Cases, truncate(strings.Join(fails, " | "), 400)))
+			lines = append(lines, fmt.Sprintf("VIOLATION property=%s replay=%s", r.Prop, rp))
+			exit = max(exit, 1)
+		}
+	}
 	// vacuity: obligations must exist, and the expected ones must all be present
 	if total == 0 {
 		lines = append(lines, "BROKEN: no obligations generated for "+r.Prop)
@@ -426,6 +514,9 @@ func (r *Report) finish() int {
 		"evaluations":              len(r.Results),
 		"distinct_nontrivial":      total,
 		"rule":                     "one case = one named proof obligation generated from /repo's SSA and its contracts; non-trivial = not a vacuity/cover query",
+	}
+	if len(boundedEv) > 0 {
+		cov["bounded_checks"] = boundedEv
 	}
 	var kf []string
 	for k := range knownHit {
@@ -629,6 +720,94 @@ func (eng *Engine) callersObligations(tag string) []*Obligation {
 				o.StructMsg = "calls outside the allowed functions: " + strings.Join(bad, "; ")
 			} else if n == 0 {
 				o.StructMsg = "no call of " + rule.Callee + " found: rule out of date"
+			}
+			out = append(out, o)
+		}
+	}
+	return out
+}
+
+// nonBlockingObligations: "nonblocking F1, F2" rules: no channel send, receive or blocking select, and no sleep,
+// in the listed functions or in anything they call (statically, closures included) inside /repo.
+func (eng *Engine) nonBlockingObligations(tag string) []*Obligation {
+	var out []*Obligation
+	var paths []string
+	for p := range eng.ld.pkgSpecs {
+		paths = append(paths, p)
+	}
+	sort.Strings(paths)
+	for _, p := range paths {
+		for _, rule := range eng.ld.pkgSpecs[p].NonBlock {
+			has := false
+			for _, t := range rule.Tags {
+				if t == tag {
+					has = true
+				}
+			}
+			if !has {
+				continue
+			}
+			var bad []string
+			seen := map[*ssa.Function]bool{}
+			n := 0
+			var walk func(fn *ssa.Function)
+			walk = func(fn *ssa.Function) {
+				if fn == nil || seen[fn] || len(fn.Blocks) == 0 {
+					return
+				}
+				seen[fn] = true
+				n++
+				for _, b := range fn.Blocks {
+					for _, in := range b.Instrs {
+						at := fn.String() + " at " + eng.prog.Fset.Position(in.Pos()).String()
+						switch x := in.(type) {
+						case *ssa.Send:
+							bad = append(bad, "blocking channel send in "+at)
+						case *ssa.Select:
+							if x.Blocking {
+								bad = append(bad, "blocking select in "+at)
+							}
+						case *ssa.UnOp:
+							if x.Op == token.ARROW {
+								bad = append(bad, "channel receive in "+at)
+							}
+						case *ssa.MakeClosure:
+							if cf, ok := x.Fn.(*ssa.Function); ok {
+								walk(cf)
+							}
+						case *ssa.Call:
+							if callee, ok := x.Call.Value.(*ssa.Function); ok {
+								if callee.String() == "time.Sleep" {
+									bad = append(bad, "sleep in "+at)
+								}
+								if callee.Pkg != nil && eng.ld.inRepo(callee.Pkg.Pkg.Path()) {
+									walk(callee)
+								}
+							}
+						case *ssa.Defer:
+							if callee, ok := x.Call.Value.(*ssa.Function); ok && callee.Pkg != nil && eng.ld.inRepo(callee.Pkg.Pkg.Path()) {
+								walk(callee)
+							}
+						}
+					}
+				}
+			}
+			missing := []string{}
+			for _, key := range rule.Allowed {
+				fn := eng.ld.lookupFunc(p, key)
+				if fn == nil {
+					missing = append(missing, key)
+					continue
+				}
+				walk(fn)
+			}
+			o := &Obligation{Name: "callgraph#" + rule.Label, Func: "call graph of /repo", Kind: "structural", Label: rule.Label, Tags: rule.Tags,
+				Pos: fmt.Sprintf("%s:%d", rule.File, rule.Line), Structural: true, StructOK: len(bad) == 0 && len(missing) == 0,
+				Goal: fmt.Sprintf("%v and their callees in /repo (%d functions) never block on a channel", rule.Allowed, n), Guard: "true"}
+			if len(missing) > 0 {
+				o.StructMsg = "functions not found (rule out of date): " + strings.Join(missing, ", ")
+			} else if len(bad) > 0 {
+				o.StructMsg = strings.Join(bad, "; ")
 			}
 			out = append(out, o)
 		}
